@@ -22,6 +22,7 @@ from universe import build_universe
 import cases as casegen
 import special
 import shrink
+import coqsample
 
 COQ = os.path.join(VERIF, 'coq')
 
@@ -293,6 +294,15 @@ def standard_check(prop, tier, seed, widen=False, gen=None, race=False):
     missing = [cid for cid, _ in cases if cid not in res]
     for cid in missing:
         failures.append({'id': cid, 'case': cd[cid], 'tags': ['unjudged'], 'detail': 'no verdict', 'obs': obs.get(cid, ''), 'decisive': False})
+    # a sample of the same cases evaluated inside Coq against the implementation's observations
+    coq_n, coq_ok, coq_detail = 0, True, ''
+    if prop in ('C01', 'C02', 'C03', 'C04', 'C05', 'C09', 'C10', 'C11'):
+        try:
+            coq_n, coq_ok, coq_detail = coqsample.run(prop, u, cases, obs, limit=30 if tier == 'quick' else 300)
+        except Exception as e:
+            coq_n, coq_ok, coq_detail = 0, False, 'in-Coq sample could not be built: %r' % e
+        if not coq_ok:
+            failures.append({'id': 'coq-sample', 'case': '(coq-sample)', 'tags': ['corr-coq-sample'], 'detail': coq_detail, 'obs': '', 'decisive': False})
     # statistics
     dist = {}
     for cid, info in infos.items():
@@ -314,7 +324,8 @@ def standard_check(prop, tier, seed, widen=False, gen=None, race=False):
         samples.append([sx[:200] for _, sx in sess_ids[0][:6]])
     return {'evaluations': len(cases), 'distinct': distinct, 'types': types_used, 'universe_types': len(u.structs),
             'distribution': dist, 'outcomes': errs, 'failures': failures, 'samples': samples,
-            'universe': u, 'exe': exe, 'corpus_cases': len(corpus), 'sessions': len(sess_ids)}
+            'universe': u, 'exe': exe, 'corpus_cases': len(corpus), 'sessions': len(sess_ids),
+            'extra': {'evaluated_inside_coq': coq_n, 'inside_coq_agree': coq_ok}}
 
 
 def session_of(sess_ids, cid):
